@@ -329,6 +329,14 @@ def check_case(
             if taps is None and exc is None:
                 st["structural_check_unavailable"] += 1
                 return
+            if exc is not None and not exc.startswith("no-termination"):
+                # driving the segments one by one uses more of the library's object model
+                # than find() does; if find() itself is fine under the same stream, the
+                # tap is what no longer fits the tree -- not a verdict
+                _l, exc2, _i, _t, _d = run_stream(text, doc, sseed, profile, None)
+                if exc2 is None:
+                    st["structural_check_unavailable"] += 1
+                    return
             locs, ident, draws = (taps[-1] if taps is not None else None), True, 0
             if taps is not None:
                 err = structure.check(taps)
